@@ -53,16 +53,17 @@ def make_recording_regressor(npm):
     return RecReg()
 
 
-def _data(d, n, weights, classification, K=2):
+def _data(d, n, weights, classification, K=2, missing=NAN):
+    """missing: the sentinel for unlabeled samples (NaN or the number -1; targets are then kept different from -1)"""
     xs = [d.fl(f"x{i}") for i in range(n)]
     X = d.arr([[x] for x in xs], shape=(n, 1))
     if classification:
         idx = [d.choose(f"label{i}", [-1] + list(range(K))) for i in range(n)]
-        yv = [NAN if k < 0 else CLASSES[k] for k in idx]
+        yv = [missing if k < 0 else CLASSES[k] for k in idx]
         lab = [i for i in range(n) if idx[i] >= 0]
     else:
         miss = [d.choose(f"missing{i}", [0, 1]) for i in range(n)]
-        yv = [NAN if miss[i] else d.fl(f"y{i}") for i in range(n)]
+        yv = [missing if miss[i] else d.fl(f"y{i}", lo=(None if missing != missing else 0.0)) for i in range(n)]
         lab = [i for i in range(n) if not miss[i]]
     y = d.arr(yv)
     ws = [d.fl(f"w{i}", lo=0.0) for i in range(n)] if weights else None
@@ -70,10 +71,10 @@ def _data(d, n, weights, classification, K=2):
     return xs, X, yv, y, ws, sw, lab
 
 
-def sc_skclf(d, n, K, fitfn, weights):
+def sc_skclf(d, n, K, fitfn, weights, missing=NAN):
     from skactiveml.classifier import SklearnClassifier
-    xs, X, yv, y, ws, sw, lab = _data(d, n, weights, True, K)
-    clf = SklearnClassifier(make_recording_classifier(d.np), classes=CLASSES[:K])
+    xs, X, yv, y, ws, sw, lab = _data(d, n, weights, True, K, missing)
+    clf = SklearnClassifier(make_recording_classifier(d.np), classes=CLASSES[:K], missing_label=missing)
     getattr(clf, fitfn)(X, y, sample_weight=sw)
     log = getattr(clf.estimator_, "fit_log_", [])
     if not lab:
@@ -93,11 +94,11 @@ def sc_skclf(d, n, K, fitfn, weights):
     d.witness(len(lab) < n, "some_unlabeled")
 
 
-def sc_skreg(d, n, fitfn, weights, normal):
+def sc_skreg(d, n, fitfn, weights, normal, missing=NAN):
     import skactiveml.regressor as R
-    xs, X, yv, y, ws, sw, lab = _data(d, n, weights, False)
+    xs, X, yv, y, ws, sw, lab = _data(d, n, weights, False, missing=missing)
     Kc = R.SklearnNormalRegressor if normal else R.SklearnRegressor
-    reg = Kc(make_recording_regressor(d.np))
+    reg = Kc(make_recording_regressor(d.np), missing_label=missing)
     getattr(reg, fitfn)(X, y, sample_weight=sw)
     log = getattr(reg.estimator_, "fit_log_", [])
     d.prove(len(log) == 1, "estimator_fitted_once")
@@ -136,9 +137,9 @@ def sc_pwc(d, n, nq, K, weights):
     d.witness(0 < len(lab) < n, "some_unlabeled")
 
 
-def sc_nic(d, n, weights):
+def sc_nic(d, n, weights, missing=NAN):
     from skactiveml.regressor import NICKernelRegressor
-    xs, X, yv, y, ws, sw, lab = _data(d, n, weights, False)
+    xs, X, yv, y, ws, sw, lab = _data(d, n, weights, False, missing=missing)
     if weights and not lab:
         if d.sym:
             raise core.PathAbort("NICKernelRegressor rejects weights whose labeled part sums to zero (documented)")
@@ -148,13 +149,13 @@ def sc_nic(d, n, weights):
         for i in lab:
             tot = core.s_add(tot, ws[i])
         d.c.assume(core.s_lt(0, tot))
-    reg = NICKernelRegressor().fit(X, y, sw)
+    reg = NICKernelRegressor(missing_label=missing).fit(X, y, sw)
     d.prove(d.eq_arr(reg.X_, d.arr([[xs[i]] for i in lab], shape=(len(lab), 1))), "stores_exactly_labeled_rows")
     d.prove(d.eq_arr(reg.y_, d.arr([yv[i] for i in lab])), "stores_exactly_labeled_targets")
     if weights:
         d.prove(d.eq_arr(reg.weights_, d.arr([ws[i] for i in lab])), "stores_exactly_labeled_weights")
     if lab:
-        sub = NICKernelRegressor().fit(d.arr([[xs[i]] for i in lab], shape=(len(lab), 1)), d.arr([yv[i] for i in lab]),
+        sub = NICKernelRegressor(missing_label=missing).fit(d.arr([[xs[i]] for i in lab], shape=(len(lab), 1)), d.arr([yv[i] for i in lab]),
                                        None if sw is None else d.arr([ws[i] for i in lab]))
         xq = d.arr([[d.fl("q")]], shape=(1, 1))
         a = reg._estimate_ml_params(xq)
@@ -179,19 +180,33 @@ def _ns(tier):
 
 HARNESSES = [
     dual_harness("sklearn_classifier_fit", sc_skclf,
-                 lambda tier: [dict(n=n, K=2, fitfn=f, weights=w) for n in _ns(tier) for f in ("fit", "partial_fit") for w in (False, True)],
+                 lambda tier: [dict(n=n, K=2, fitfn=f, weights=w) for n in _ns(tier) for f in ("fit", "partial_fit") for w in (False, True)]
+                 + [dict(n=2, K=2, fitfn=f, weights=True, missing=-1.0) for f in ("fit", "partial_fit")],
                  [UNITS[0], UNITS[7], UNITS[9]], required_witnesses=("some_unlabeled", "no_labels")),
     dual_harness("sklearn_regressor_fit", sc_skreg,
                  lambda tier: [dict(n=n, fitfn=f, weights=w, normal=nm) for n in _ns(tier) for f in ("fit", "partial_fit")
-                               for w in (False, True) for nm in (False, True)], [UNITS[1], UNITS[7], UNITS[8]],
+                               for w in (False, True) for nm in (False, True)]
+                 + [dict(n=2, fitfn=f, weights=True, normal=nm, missing=-1.0) for f in ("fit", "partial_fit") for nm in (False, True)],
+                 [UNITS[1], UNITS[7], UNITS[8]],
                  required_witnesses=("some_unlabeled",)),
     dual_harness("parzen_window_subset", sc_pwc,
                  lambda tier: [dict(n=n, nq=1, K=2, weights=w) for n in _ns(tier) for w in (False, True)],
                  UNITS[2:4] + UNITS[6:8], required_witnesses=("some_unlabeled",)),
     dual_harness("nic_kernel_regressor_subset", sc_nic,
-                 lambda tier: [dict(n=n, weights=w) for n in _ns(tier) for w in (False, True)],
+                 lambda tier: [dict(n=n, weights=w) for n in _ns(tier) for w in (False, True)] + [dict(n=2, weights=True, missing=-1.0)],
                  UNITS[4:6] + UNITS[7:9], required_witnesses=("some_unlabeled",), product_abstraction=True),
 ]
+
+
+def _refit(d, kind, n1, n2):
+    from harness.C13 import sc_refit
+    return sc_refit(d, kind, n1, n2)
+
+
+HARNESSES.append(dual_harness(
+    "refit_sees_only_labeled", _refit,
+    lambda tier: [dict(kind=k, n1=2, n2=2) for k in ("classifier", "regressor")],
+    [UNITS[0], UNITS[1]], required_witnesses=("both_fits_with_labels",)))
 BOUNDS = dict(quick="n <= 3 training samples, every missing-label pattern, symbolic features / targets / weights / kernel values; fit and "
                     "partial_fit of the wrappers",
               thorough="n <= 4",
